@@ -46,9 +46,9 @@ _add(_c("usn_orth", "USN", [2, 2], [3, 4, 3], 1, "lsn", dict(orthogonal=True), f
 _add(_c("lsn_orth_rev", "LSN", [2, 2], [3, 4, 3], 1, "lsn", dict(orthogonal=True), fpol="quad", psi_sign=-1.0))
 _add(_c("lsn_nonorth", "LSN", [2, 2], [3, 4, 3], 1, "lsn", dict(orthogonal=False), fpol="quad"))
 _add(_c("lsn_nonorth_rev", "LSN", [2, 2], [3, 4, 3], 1, "lsn", dict(orthogonal=False), fpol="negquad", psi_sign=-1.0))
-_add(_c("cdn_orth", "CDN", [2, 2], [3, 3, 3, 3, 3, 3], 1, "cdn", dict(orthogonal=True, **DN), fpol="quad"))
-_add(_c("ldn_orth", "LDN", [2, 1, 2], [3, 3, 3, 3, 3, 3], 1, "ldn", dict(orthogonal=True, **DN), fpol="quad"))
-_add(_c("udn_nonorth", "UDN", [2, 1, 2], [4, 4, 4, 4, 4, 4], 1, "udn", dict(orthogonal=False, **DN), fpol="quad"))
+_add(_c("cdn_orth", "CDN", [2, 2], [3, 3, 3, 3, 3, 3], 1, "cdn", dict(orthogonal=True, **DN), fpol="quad", pressure="quad"))
+_add(_c("ldn_orth", "LDN", [2, 1, 2], [3, 3, 3, 3, 3, 3], 1, "ldn", dict(orthogonal=True, **DN), fpol="quad", pressure="quad"))
+_add(_c("udn_nonorth", "UDN", [2, 1, 2], [4, 4, 4, 4, 4, 4], 1, "udn", dict(orthogonal=False, **DN), fpol="quad", pressure="quad"))
 _add(_c("core_orth", "CORE", [3], [8], 0, None, dict(orthogonal=True)))
 _add(_c("lim_orth", "LIM", [3], [8], 0, None, dict(orthogonal=True)))
 _add(_c("lsn_orth_x2", "LSN", [4, 4], [6, 8, 6], 1, "lsn", dict(orthogonal=True), fpol="quad", pressure="quad", wall="slanted"))
@@ -70,11 +70,19 @@ _add(_c("r_revbt", "LSN", [2, 2], [3, 4, 3], 1, "lsn", dict(orthogonal=True, rev
 _add(_c("r_twopi", "LSN", [2, 2], [3, 4, 3], 1, "lsn", dict(orthogonal=True, psi_divide_twopi=True), fpol="quad", psi_scale=6.283185307179586))
 _add(_c("rn_base", "LSN", [2, 2], [3, 4, 3], 1, "lsn", dict(orthogonal=False), fpol="quad"))
 _add(_c("rn_negpsi", "LSN", [2, 2], [3, 4, 3], 1, "lsn", dict(orthogonal=False), fpol="quad", psi_sign=-1.0))
+# the same equilibria through a geqdsk file (tokamak.read_geqdsk: profiles between axis and separatrix, simagx / sibdry carried by the file) - seed C03_btaxis_gfile_revcur
+_add(_c("r_gf_base", "LSN", [2, 2], [3, 4, 3], 1, "lsn", dict(orthogonal=True), fpol="quad", pressure="quad", gfile=True))
+_add(_c("r_gf_revcur", "LSN", [2, 2], [3, 4, 3], 1, "lsn", dict(orthogonal=True, reverse_current=True), fpol="quad", pressure="quad", psi_sign=-1.0, gfile=True))
+_add(_c("r_gf_twopi", "LSN", [2, 2], [3, 4, 3], 1, "lsn", dict(orthogonal=True, psi_divide_twopi=True), fpol="quad", pressure="quad", psi_scale=6.283185307179586, gfile=True))
+_add(_c("r_gf_revbt", "LSN", [2, 2], [3, 4, 3], 1, "lsn", dict(orthogonal=True, reverse_Bt=True, reverse_current=True), fpol="quad", pressure="quad", psi_sign=-1.0, gfile=True))
+GFILE_GRIDS = ["r_gf_base", "r_gf_revcur", "r_gf_twopi", "r_gf_revbt"]
 # (m_ldn ny is mirrored below: region i of the mirrored double null is the mirror of region 4-i / 10-i)
 CONFIGS["m_udn"]["ny"] = [3, 3, 3, 3, 4, 3][2::-1] + [3, 3, 3, 3, 4, 3][:2:-1]
 C16_PAIRS = [("m_lsn", "m_usn", "mirror"), ("m_ldn", "m_udn", "mirror"), ("cdn_orth", "cdn_orth", "mirror"),
              ("r_base", "r_negpsi", "negpsi"), ("r_base", "r_revcur", "same"), ("r_base", "r_revbt", "revbt"), ("r_base", "r_twopi", "same"),
-             ("rn_base", "rn_negpsi", "negpsi")]
+             ("rn_base", "rn_negpsi", "negpsi"),
+             ("r_gf_base", "r_gf_revcur", "same"), ("r_gf_base", "r_gf_twopi", "same"), ("r_gf_base", "r_gf_revbt", "revbt"),
+             ("ldn_orth_wide", "ldn_wide_revcur", "negpsi")]
 
 # ---- pairs for C10 (all ny doubled, nx unchanged: every face of the coarse grid must be a face of the fine grid)
 _add(_c("lsn_orth_y2", "LSN", [2, 2], [6, 8, 6], 1, "lsn", dict(orthogonal=True), fpol="quad", pressure="quad", wall="slanted"))
@@ -107,6 +115,9 @@ C04_EXTRA = ["lsn_orth_weak", "cdn_orth_weak"]
 # ---- a disconnected double null with a wide inter-separatrix segment (three cells): its second private-flux segment is where psi0 sits at
 # the far end of the radial list (seed C04_reverse_without_unreverse)
 _add(_c("ldn_orth_wide", "LDN", [2, 3, 2], [3, 3, 3, 3, 3, 3], 1, "ldn", dict(orthogonal=True, **DN), fpol="quad"))
+# ... and the same with the current reversed (psi decreasing outwards: the two-sided radial spacing between the separatrices must not depend on the
+# sign of psi - seed C16_abs_lost_both_grads)
+_add(_c("ldn_wide_revcur", "LDN", [2, 3, 2], [3, 3, 3, 3, 3, 3], 1, "ldn", dict(orthogonal=True, reverse_current=True, **DN), fpol="quad"))
 
 # ---- tilted X-point: region joins oblique to the R / Z axes (seed C01_corner_row_mixed is second order on the symmetric families)
 _add(_c("lsn_tilt_orth", "LSN", [2, 2], [3, 4, 3], 1, "lsn_tilt", dict(orthogonal=True), fpol="quad", pressure="quad"))
@@ -151,7 +162,7 @@ CORE_CAMPAIGN = ["lsn_orth", "usn_orth", "lsn_orth_rev", "lsn_nonorth", "lsn_non
 # ---- extended campaign (thorough tier) ------------------------------------------------
 _add(_c("usn_nonorth", "USN", [2, 2], [3, 4, 3], 1, "usn", dict(orthogonal=False), fpol="quad"))
 _add(_c("cdn_nonorth", "CDN", [2, 2], [4, 4, 4, 4, 4, 4], 1, "cdn", dict(orthogonal=False, **DN), fpol="quad"))
-_add(_c("udn_orth", "UDN", [2, 1, 2], [3, 3, 3, 3, 3, 3], 1, "udn", dict(orthogonal=True, **DN), fpol="quad"))
+_add(_c("udn_orth", "UDN", [2, 1, 2], [3, 3, 3, 3, 3, 3], 1, "udn", dict(orthogonal=True, **DN), fpol="quad", pressure="quad"))
 _add(_c("ldn_nonorth", "LDN", [2, 1, 2], [4, 4, 4, 4, 4, 4], 1, "ldn", dict(orthogonal=False, **DN), fpol="quad"))
 _add(_c("lsn_orth_dct", "LSN", [2, 2], [3, 4, 3], 1, "lsn", dict(orthogonal=True, psi_interpolation_method="dct"), fpol="quad"))
 _add(_c("lsn_orth_g0", "LSN", [2, 2], [3, 4, 3], 0, "lsn", dict(orthogonal=True), fpol="quad"))
